@@ -12,6 +12,7 @@ CONSTANTS
   CloseStats,   \* statuses the transport may be closed with
   MaxChunks,    \* chunks the peer sends at most
   MaxDepth,
+  MinCloseDepth, \* Close is offered from this depth on (long random behaviours)
   ForceClose    \* the last step of a behaviour closes the transport if it is still open
 
 VARIABLES depth
@@ -23,7 +24,7 @@ Free ==
   \/ Poll
   \/ \E id \in (1..nextId) \cup {UnknownId}, k \in Kinds : nextSeq <= MaxChunks /\ Chunk(id, k)
   \/ \E id \in DOMAIN pending : Expire(id)
-  \/ \E s \in CloseStats : Close(s)
+  \/ \E s \in CloseStats : depth >= MinCloseDepth /\ Close(s)
 
 DNext ==
   /\ depth < MaxDepth
